@@ -1413,7 +1413,8 @@ Proof.
 Qed.
 
 (* ------------------------------------------------------------------ *)
-(* connection loss: once the receiver has lost the connection nothing is entered any more, whatever happens next
+(* BEYOND THE PROPERTY TEXT (robustness observation; C04 itself says nothing about connection loss).
+   connection loss: once the receiver has lost the connection nothing is entered any more, whatever happens next
    (calls issued, stalls released, bytes "delivered", gifts resolved, turns, a second loss) *)
 
 Lemma do_next_lost_id s : lost s = true -> do_next s = s.
